@@ -20,6 +20,7 @@ import itertools
 import json
 import random
 import warnings
+from pathlib import Path
 from typing import Any, Optional
 
 import numpy as np
@@ -27,8 +28,24 @@ import numpy as np
 from harness import core
 from harness import lib_mlops as L
 from harness import lib_c06prog as P
+from harness import lib_c06vdep as V
 
 SIZES = [0, 1, 2, 5]
+GLUE_BASELINE = Path(__file__).resolve().parent.parent / "c06_glue_baseline.json"
+ESCALATE: list = []  # glue functions whose normalised AST differs from the committed baseline (this run)
+
+
+def glue_changes(tab) -> list:
+    """Glue functions (`_standard.py`, `_inline.py`, `Node.inference`, ...) whose normalised-AST hash differs
+    from the committed baseline. Not a violation: the run then uses larger case lists (all modules as
+    first-class in the termination loops, every value source under every backend, symbolic unary inputs,
+    4x the generated programs), so that a changed code path meets more inputs."""
+    try:
+        base = json.loads(GLUE_BASELINE.read_text())
+    except Exception:  # noqa: BLE001
+        return ["<no baseline>"]
+    now = {f"{g['file']}:{g['name']}": g["hash"] for g in tab.get("glue", [])}
+    return sorted(k for k in set(base) | set(now) if base.get(k) != now.get(k))
 
 
 # =============================================================================== correspondences
@@ -71,9 +88,22 @@ def _req(kind: str, case: dict, **extra) -> dict:
     return r
 
 
+def compress_variant() -> bool:
+    """Which Compress routine does the source implement? True = the repaired one (an input of unknown
+    rank without an axis gives a vector, `inferCompressFixed`), False = the pinned one (`inferCompress`).
+    Probed on the one distinguishing input; both variants are proved sound."""
+    try:
+        r = L.real_infer(L.OPS["Compress"], {"a": None}, [{"e": "f32", "s": None}, {"e": "bool", "s": [2]}])
+        return r.get("ok") == [{"e": "f32", "s": [None]}]
+    except Exception:  # noqa: BLE001
+        return False
+
+
 def corr_infer(ck: core.Check, drv) -> None:
     cases = infer_cases(ck.rng, ck.thorough)
-    model = drv.ask_many("C06", [_req("infer", c, **{"in": c["in"]}) for c in cases])
+    vec = compress_variant()
+    ck.cov["compress_variant"] = "inferCompressFixed" if vec else "inferCompress"
+    model = drv.ask_many("C06", [_req("infer", c, **({"in": c["in"], "vec": vec} if c["op"] == "Compress" else {"in": c["in"]})) for c in cases])
     mism = 0
     per_op: dict[str, int] = {}
     errs = 0
@@ -196,14 +226,21 @@ def corr_looprun(ck: core.Check, drv) -> None:
                                 continue  # a doubling body contradicts a constant declared shape
                             cases.append({"body": kind, "M": M, "c0": c0, "conds": conds, "declared": declared,
                                           "v0": [{"e": "f32", "s": shape}]})
-    model = drv.ask_many("C06", [dict(c, k="looprun") for c in cases])
+                            if c0:  # the same run with `cond` OMITTED: the model's c0 = true is what the runtime does
+                                cases.append(dict(cases[-1], omit=True))
+                            if M == 0 and False in conds:  # ... and with the TRIP COUNT omitted (the body must stop by itself)
+                                cases.append(dict(cases[-1 - int(c0)], noM=True))
+                                if c0:
+                                    cases.append(dict(cases[-1], omit=True))
+    model = drv.ask_many("C06", [dict({k: v for k, v in c.items() if not (k == "M" and c.get("noM")) and not (k == "c0" and c.get("omit"))},
+                                      k="looprun") for c in cases])
     mism = ran = zero = 0
     sessions: dict = {}
     empties = []
     for c, mo in zip(cases, model):
         shape = c["v0"][0]["s"]
         decl = list(shape) if c["declared"] == "const" else [None] * len(shape)
-        key = (c["body"], tuple(c["conds"]), json.dumps(decl))
+        key = (c["body"], tuple(c["conds"]), json.dumps(decl), bool(c.get("omit")), bool(c.get("noM")))
         if key not in sessions:
             args = P.make_args({"x": L.ty_from_json({"e": "f32", "s": decl}),
                                 "m": L.ty_from_json({"e": "i64", "s": []}), "c": L.ty_from_json({"e": "bool", "s": [1]})})
@@ -218,7 +255,7 @@ def corr_looprun(ck: core.Check, drv) -> None:
 
             with warnings.catch_warnings():
                 warnings.simplefilter("ignore")
-                outs = op.loop(args["m"], args["c"], v_initial=[args["x"]], body=body)
+                outs = op.loop(None if c.get("noM") else args["m"], None if c.get("omit") else args["c"], v_initial=[args["x"]], body=body)
             m, _ = P.build_exposed(args, list(outs))
             sessions[key] = P._session(m.SerializeToString())
         feed = {"x": np.zeros(shape, np.float32), "m": np.array(c["M"], np.int64), "c": np.array([c["c0"]], np.bool_)}
@@ -245,7 +282,9 @@ def corr_looprun(ck: core.Check, drv) -> None:
         if v.get("ok") is not True:
             mism += 1
             ck.broken("correspondence", "emptyScanOk runtime-spec-vs-onnxruntime", f"case={json.dumps(c)} scan output={w} declared slice type={t} model={v}")
-    ck.cov["looprun_correspondence"] = {"cases": len(cases), "onnxruntime_accepted": ran, "zero_iteration_cases": zero, "mismatches": mism}
+    ck.cov["looprun_correspondence"] = {"cases": len(cases), "cond_omitted_cases": sum(1 for c in cases if c.get("omit")),
+                                        "trip_count_omitted_cases": sum(1 for c in cases if c.get("noM")),
+                                        "onnxruntime_accepted": ran, "zero_iteration_cases": zero, "mismatches": mism}
 
 
 def corr_nontensor(ck: core.Check, drv) -> None:
@@ -594,6 +633,84 @@ def oracle_function_conflicts(ck: core.Check) -> dict:
     return stats
 
 
+def _family(ck: core.Check, kind: str, cases: list, runner, max_inst: int) -> dict:
+    stats = {"programs": 0, "rejected": 0, "runs": 0, "runs_refused_by_runtime": 0, "vars_checked": 0, "errors": []}
+    for c in cases:
+        case = dict(c, kind=kind)
+        st = runner(case, ck.rng, SIZES, max_inst)
+        stats["programs"] += 1
+        if st.get("rejected"):
+            stats["rejected"] += 1
+            if len(stats["errors"]) < 4 and st.get("error", "")[:100] not in stats["errors"]:
+                stats["errors"].append(st.get("error", "")[:100])
+            continue
+        stats["runs"] += st["runs"]
+        stats["runs_refused_by_runtime"] += st["refused"]
+        stats["vars_checked"] += st["checked"]
+        ck.count((kind, json.dumps(c, sort_keys=True)) if st["checked"] else None)
+        report(ck, st["fails"], case)
+    return stats
+
+
+def oracle_term_loops(ck: core.Check) -> dict:
+    """Loop x {trip count constant / initializer / computed / fed / omitted} x {cond omitted / constant /
+    computed / fed} x body termination {never, at a constant, at a fed iteration, immediately}, every
+    opset module, also nested in Loop / If / function / inlined model: scan outputs and their consumers."""
+    cases = V.term_loop_cases(P.OPSET_MODULES, ck.thorough, bool(ESCALATE))
+    stats = _family(ck, "term-loop", cases, V.run_term_loop, 3)
+    per_mod = {m: sum(1 for c in cases if c["module"] == m) for m in P.OPSET_MODULES}
+    stats["per_module_programs"] = per_mod
+    if stats["vars_checked"] == 0 or stats["rejected"] > stats["programs"] // 2:
+        ck.broken("correspondence", "termination Loop programs not observable", f"{stats['rejected']}/{stats['programs']} rejected: {stats['errors'][:2]}")
+    return stats
+
+
+def oracle_unary_all(ck: core.Check) -> dict:
+    """EVERY constructor of every opset module (5 ai.onnx + 3 ml) that can be applied to one Var, on an
+    input with distinct constant dims (f32[1,2,3,3] first): whatever type is reported vs. the runtime."""
+    cases = V.unary_cases(ck.thorough or bool(ESCALATE))
+    stats = {"programs": 0, "rejected": 0, "runs": 0, "runs_refused_by_runtime": 0, "vars_checked": 0, "operators_applied": 0,
+             "not_observable": [], "per_module_operators": {}}
+    for c in cases:
+        case = dict(c, kind="unary-all")
+        st = V.run_unary_all(case, ck.rng, SIZES, 2)
+        stats["programs"] += 1
+        stats["per_module_operators"][c["module"]] = stats["per_module_operators"].get(c["module"], 0) + len(c["ops"])
+        if st.get("rejected"):
+            stats["rejected"] += 1
+            stats["not_observable"] += [f"{c['module']}:{n}" for n in c["ops"]]
+            continue
+        stats["runs"] += st["runs"]
+        stats["runs_refused_by_runtime"] += st["refused"]
+        stats["vars_checked"] += st["checked"]
+        stats["operators_applied"] += st.get("applied", 0)
+        stats["not_observable"] += [f"{c['module']}:{n}" for n in st.get("unloadable", [])]
+        for n in c["ops"]:
+            ck.count(("unary-all", c["module"], n, c.get("symbolic", False)) if st["checked"] else None)
+        report(ck, st["fails"], case)
+    if stats["operators_applied"] < 300:
+        ck.broken("correspondence", "single-input operators not observable", f"only {stats['operators_applied']} constructors could be applied")
+    return stats
+
+
+def oracle_scan_families(ck: core.Check) -> dict:
+    cases = [dict(sc, module=m) for m in P.OPSET_MODULES for sc in V.SCAN_FAMILY]
+    stats = _family(ck, "scan-family", cases, V.run_scan_family, ck.pick(3, 6))
+    if stats["vars_checked"] == 0:
+        ck.broken("correspondence", "Scan family programs not observable", str(stats["errors"][:2]))
+    return stats
+
+
+def oracle_vdep(ck: core.Check) -> dict:
+    """Operators whose reported shape depends on an input's VALUE, fed from every kind of value source,
+    under each value-propagation backend."""
+    cases = V.vdep_cases(ck.thorough, bool(ESCALATE))
+    stats = _family(ck, "vdep", cases, V.run_vdep, 1)
+    if stats["vars_checked"] == 0 or stats["rejected"] > stats["programs"] // 3:
+        ck.broken("correspondence", "value-dependent programs not observable", f"{stats['rejected']}/{stats['programs']} rejected: {stats['errors'][:2]}")
+    return stats
+
+
 def oracle_scan(ck: core.Check) -> dict:
     """Scan programs with states of rank 0-2 and scan inputs of rank 1-3 (distinct constant dims)."""
     stats = {"programs": 0, "constructor_rejected": 0, "runs": 0, "runs_refused_by_runtime": 0, "vars_checked": 0}
@@ -620,7 +737,7 @@ def oracle_programs(ck: core.Check) -> dict:
     stats = {"programs": 0, "build_failed": 0, "runs": 0, "runs_refused_by_runtime": 0, "vars_checked": 0,
              "ops": {}, "with_loop": 0, "with_if": 0, "with_inline": 0, "with_function": 0, "with_function-two-types": 0, "with_scan": 0,
              "body_vars_exposed": 0, "runtime_disagreements": 0, "disagreement_samples": []}
-    n = ck.pick(260, 8000)
+    n = ck.pick(1040 if ESCALATE else 260, 8000)
     for i in range(n):
         seed = rng.randrange(1 << 30)
         case = {"kind": "program", "seed": seed, "size": rng.randrange(3, 9)}
@@ -663,6 +780,12 @@ def run(ck: core.Check):
 
         tab = ml_overrides.generate()
         ck.cov["override_table"] = [f"{r['module']}:{r['op']}#{r['hash']}" for r in tab["rows"]]
+        ck.cov["value_override_table"] = [f"{r['module']}:{r['cls']}#{r['hash']}" for r in tab.get("value_rows", [])]
+        ck.cov["glue_hashes"] = {f"{g['file']}:{g['name']}": g["hash"] for g in tab.get("glue", [])}
+        ESCALATE[:] = glue_changes(tab)
+        ck.cov["glue_changed_escalated"] = list(ESCALATE)
+        if ESCALATE:
+            ck.log("glue code differs from the baseline (" + ", ".join(ESCALATE)[:300] + "): escalated case counts")
     except Exception as e:  # noqa: BLE001
         ck.broken("translator", "ml_overrides not extractable", f"{type(e).__name__}: {e}")
     ck.lean(["SpoxModel.Props.C06"], audit="SpoxModel.Audit.C06")
@@ -694,6 +817,12 @@ def run(ck: core.Check):
     ck.cov["oracle_inline_forms"] = _facet(ck, "inline call-form oracle", oracle_inline_forms, ck)
     ck.cov["oracle_attr_functions"] = _facet(ck, "attribute-function oracle", oracle_attr_functions, ck)
     ck.cov["oracle_function_conflicts"] = _facet(ck, "function-conflict oracle", oracle_function_conflicts, ck)
+    ck.cov["oracle_term_loops"] = _facet(ck, "termination-Loop oracle", oracle_term_loops, ck)
+    ck.log("termination-Loop oracle done")
+    ck.cov["oracle_scan_families"] = _facet(ck, "Scan-family oracle", oracle_scan_families, ck)
+    ck.cov["oracle_unary_all"] = _facet(ck, "all single-input operators oracle", oracle_unary_all, ck)
+    ck.cov["oracle_vdep"] = _facet(ck, "value-dependent inference oracle", oracle_vdep, ck)
+    ck.log("value-dependent oracle done")
     ck.cov["oracle_programs"] = _facet(ck, "program oracle", oracle_programs, ck)
     ck.log("program oracle done")
     _facet(ck, "witness replay", P.replay_known, ck)
@@ -743,6 +872,14 @@ def replay(ck: core.Check, doc) -> bool:
         st = P.run_function_conflict(case, rng, SIZES, max_inst=6, extra_feeds=extra)
     elif case.get("kind") == "scan":
         st = P.run_scan(case, rng, SIZES, max_inst=6, extra_feeds=extra)
+    elif case.get("kind") == "term-loop":
+        st = V.run_term_loop(case, rng, SIZES, 3, extra_feeds=extra)
+    elif case.get("kind") == "scan-family":
+        st = V.run_scan_family(case, rng, SIZES, 6, extra_feeds=extra)
+    elif case.get("kind") == "vdep":
+        st = V.run_vdep(case, rng, SIZES, 1, extra_feeds=extra)
+    elif case.get("kind") == "unary-all":
+        st = V.run_unary_all(case, rng, SIZES, 2, extra_feeds=extra)
     elif case.get("kind") == "witness":
         st = P.run_witness(case)
     elif case.get("kind") == "nontensor":
